@@ -33,8 +33,8 @@ def leg_a(ctx):
 
 
 def run(ctx, pool):
-    tw, stats = pc.record_processes(ctx, 0, ctx.n(48, 1600), {"with_std": False, "with_fits": True})
-    jobs = [(ctx.seed * 613 + j, ctx.n(1, 20)) for j in range(ctx.n(24, 64))]
+    tw, stats = pc.record_processes(ctx, 0, ctx.n(96, 1600), {"with_std": False, "with_fits": True})
+    jobs = [(ctx.seed * 613 + j, ctx.n(1, 20)) for j in range(ctx.n(32, 64))]
     for traces in core.parallel("harness.rec_process", "nicurve_job", jobs):
         tw.traces.extend(traces)
     res = core.validate_traces(None, ctx, tw, pool, "Trace_Process.tla", "Trace_Process_C05.cfg")
